@@ -209,13 +209,15 @@ class Builder:
 def gen_model(rng, d, arith, allow=None):
     fams = [("linear", 28), ("hash", 28), ("inter", 8), ("const", 5), ("multi", 18), ("zerosum", 5), ("riverlabel", 8),
             ("riverint", 6 if arith in ("float", "exact") else 0)]
+    if arith == "fraction":
+        fams = [f for f in fams if f[0] in ("linear", "hash", "inter", "const", "multi", "zerosum")]
     if arith in ("npfloat", "npfloat32"):
         fams = [f for f in fams if f[0] != "zerosum"]
     if arith == "npfloat32":
         # single precision overflows at 3.4e38: the product model's squared losses (and their squares, the variances)
         # would leave the range for reasons that have nothing to do with the library
         fams = [f for f in fams if f[0] != "inter"]
-    if arith == "exact":
+    if arith in ("exact", "fraction"):
         # the real RiverWrapper emits Python floats (0./1.), so the library averages them in float arithmetic
         fams = [f for f in fams if f[0] != "riverlabel"]
     if allow:
@@ -248,7 +250,9 @@ def gen_loss(rng, arith, model):
         return {"family": "river", "metric": metric, "seed": 0, "sig": "pos"}
     if arith == "float" and model["family"] in ("linear", "hash", "inter", "const") and rng.random() < 0.15:
         return {"family": "river", "metric": rng.choice(["MSE", "MAE"]), "seed": 0, "sig": "pos"}
-    if arith == "exact":
+    if arith == "fraction":
+        fam = wchoice(rng, [("hash", 40), ("sq", 30), ("abs", 15), ("lin", 15)])
+    elif arith == "exact":
         fam = wchoice(rng, [("hash", 36), ("sq", 28), ("abs", 14), ("lin", 14), ("bool01", 8)])
     else:
         fam = wchoice(rng, [("sq", 50), ("abs", 25), ("lin", 25)])
@@ -258,7 +262,7 @@ def gen_loss(rng, arith, model):
     # tiny-scale losses: a deviation must not hide below an absolute threshold
     if fam == "bool01":
         return out
-    if arith == "exact":
+    if arith in ("exact", "fraction"):
         k = wchoice(rng, [(0, 75), (6, 10), (12, 10), (20, 5)])
     elif arith == "float":
         k = wchoice(rng, [(0, 85), (6, 15)])
@@ -304,7 +308,7 @@ def gen_incremental(rng, cls, arith, storages, imputers, shared=None):
 
 def gen_world_config(rng, focus, arith=None, d=None, names_kind=None):
     """focus: 'sage' | 'pfi' | 'mixed'"""
-    arith = arith or wchoice(rng, [("exact", 62), ("float", 28), ("npfloat", 10)])
+    arith = arith or wchoice(rng, [("exact", 56), ("fraction", 7), ("float", 27), ("npfloat", 10)])
     d = d or wchoice(rng, [(1, 10), (2, 25), (3, 30), (4, 20), (5, 10), (6, 5)])
     names, nk = gen_names(rng, d, names_kind)
     model = gen_model(rng, d, arith)
@@ -358,6 +362,12 @@ def gen_world_config(rng, focus, arith=None, d=None, names_kind=None):
         for e in explainers:
             if e["cls"] in ("pfi", "sage") and e.get("dynamic", True) and "alpha" not in e:
                 e["alpha"] = rng.choice(ALPHAS)
+    if arith == "fraction":
+        # plain Fractions meet a double only through the default alpha: give every dynamic explainer an exact one
+        for e in explainers:
+            if e["cls"] in ("pfi", "sage") and e.get("dynamic", True) and "alpha" not in e:
+                e["alpha"] = rng.choice(ALPHAS)
+        model.pop("style", None)
     if arith == "exact" and loss["family"] == "hash" and any(
             e["cls"] in ("pfi", "sage") and e.get("dynamic", True) and "alpha" not in e for e in explainers):
         # default alpha is the double 0.001: the library's own weights are rounded, so values that feed the
